@@ -43,6 +43,47 @@ def run_harness(binp, chk, replays):
     return out
 
 
+def check_notify_model(chk, binp, replays, limit):
+    """The NotifyModel assumption against the real watcher stack (notify + notify-debouncer-full): for a sample of
+    (history prefix, edit) pairs the real debounced events are compared with the events the model attaches to the
+    edit.  Informational: a difference is an ASSUMPTION difference (drift), never a violation."""
+    seen, scen = set(), []
+    for rp in replays:
+        ops = [o for o in rp["ops"] if o["op"] in ("write", "delete", "rename", "rmdir", "mvdir")]
+        if len(ops) != len(rp["ops"]) or not ops:
+            continue
+        last = ops[-1]
+        key = (last["op"], last.get("p"), last.get("q"), len(ops))
+        if key in seen:
+            continue
+        seen.add(key)
+        base = [{"op": "write", "p": "src/a/x.ts"}, {"op": "write", "p": "src/ab/y.ts"}, {"op": "write", "p": "src/top.ts"}]
+        scen.append({"id": len(scen), "setup": base + [{k: v for k, v in o.items() if k != "evs"} for o in ops[:-1]],
+                     "edit": {k: v for k, v in last.items() if k != "evs"}, "model": last["evs"]})
+        if len(scen) >= limit:
+            break
+    if not scen:
+        return
+    inp = "\n".join(json.dumps({k: v for k, v in s.items() if k != "model"}) for s in scen) + "\n"
+    p = vlib.run_bin(binp / "h_notify", [str(chk.work / "hn")], input=inp, timeout=1200, check=False)
+    got = {}
+    for l in p.stdout.splitlines():
+        if l.strip():
+            o = json.loads(l)
+            got[o["id"]] = o["events"]
+    diffs = []
+    for s in scen:
+        model = [{k: v for k, v in e.items()} for e in s["model"]]
+        real = got.get(s["id"])
+        if real is None:
+            continue
+        if real != model:
+            diffs.append({"edit": s["edit"], "model": model, "real_watcher": real})
+    chk.cov["notify_model"] = {"scenarios_checked_against_real_watcher": len(got), "differences": diffs[:10]}
+    for d in diffs[:5]:
+        chk.drift({"notify_model_assumption_differs": d})
+
+
 def strip(ops):
     return [{k: v for k, v in o.items() if k != "evs"} for o in ops]
 
@@ -98,6 +139,7 @@ def run(chk: vlib.Check):
         raise ToolError(f"vacuous model run: actions never taken: {sorted(need - set(kinds))}")
     obs = run_harness(binp, chk, replays)
     chk.cov["evaluations"] = len(replays)
+    check_notify_model(chk, binp, replays, 10 if chk.tier == "quick" else 60)
     bads = judge(chk, obs, "mc")
     nontrivial = 0
     drift_n = 0
